@@ -20,6 +20,59 @@ import (
 	"strings"
 )
 
+// hookgenMethod emits the forwarding method: the hook takes the receiver as its first argument.
+func hookgenMethod(extra *bytes.Buffer, fd *ast.FuncDecl, typeStr func(ast.Expr) string, recvT, key string) {
+	name := fd.Name.Name
+	var params, argNames, ptypes []string
+	k := 0
+	for _, fl := range fd.Type.Params.List {
+		ts := typeStr(fl.Type)
+		n := len(fl.Names)
+		if n == 0 {
+			n = 1
+		}
+		for i := 0; i < n; i++ {
+			an := fmt.Sprintf("a%d", k)
+			k++
+			params = append(params, an+" "+ts)
+			if strings.HasPrefix(ts, "...") {
+				argNames = append(argNames, an+"...")
+			} else {
+				argNames = append(argNames, an)
+			}
+			ptypes = append(ptypes, ts)
+		}
+	}
+	var rtypes []string
+	if fd.Type.Results != nil {
+		for _, fl := range fd.Type.Results.List {
+			ts := typeStr(fl.Type)
+			n := len(fl.Names)
+			if n == 0 {
+				n = 1
+			}
+			for i := 0; i < n; i++ {
+				rtypes = append(rtypes, ts)
+			}
+		}
+	}
+	res := ""
+	if len(rtypes) == 1 {
+		res = " " + rtypes[0]
+	} else if len(rtypes) > 1 {
+		res = " (" + strings.Join(rtypes, ", ") + ")"
+	}
+	ret := ""
+	if len(rtypes) > 0 {
+		ret = "return "
+	}
+	hookArgs := append([]string{"vrecv"}, argNames...)
+	hookTypes := append([]string{recvT}, ptypes...)
+	fmt.Fprintf(extra, "\nfunc (vrecv %s) %s(%s)%s {\n\tif h := verifrtHook.Hook(%q); h != nil {\n\t\t%sh.(func(%s)%s)(%s)\n\t\treturn\n\t}\n\t%svrecv.verifOrig_%s(%s)\n}\n",
+		recvT, name, strings.Join(params, ", "), res, key, ret, strings.Join(hookTypes, ", "), res, strings.Join(hookArgs, ", "),
+		ret, name, strings.Join(argNames, ", "))
+}
+
 func hookgenMain(args []string) {
 	if len(args) < 4 {
 		fmt.Fprintln(os.Stderr, "usage: gosymex hookgen <src.go> <out.go> <qualified-prefix> <Func>...")
@@ -44,11 +97,40 @@ func hookgenMain(args []string) {
 	found := 0
 	for _, d := range f.Decls {
 		fd, ok := d.(*ast.FuncDecl)
-		if !ok || fd.Recv != nil || !want[fd.Name.Name] || fd.Body == nil {
+		if !ok || fd.Body == nil {
+			continue
+		}
+		// methods are named "Type.Method"; the hook key is the go/ssa name of the method
+		recvType, recvPtr := "", false
+		if fd.Recv != nil && len(fd.Recv.List) == 1 {
+			rt := fd.Recv.List[0].Type
+			if st, ok := rt.(*ast.StarExpr); ok {
+				rt, recvPtr = st.X, true
+			}
+			if id, ok := rt.(*ast.Ident); ok {
+				recvType = id.Name
+			} else {
+				continue
+			}
+			if !want[recvType+"."+fd.Name.Name] {
+				continue
+			}
+		} else if fd.Recv != nil || !want[fd.Name.Name] {
 			continue
 		}
 		found++
 		name := fd.Name.Name
+		if recvType != "" {
+			rts := recvType
+			key := "(" + prefix + "." + recvType + ")." + name
+			if recvPtr {
+				rts = "*" + recvType
+				key = "(*" + prefix + "." + recvType + ")." + name
+			}
+			hookgenMethod(&extra, fd, typeStr, rts, key)
+			fd.Name.Name = "verifOrig_" + name
+			continue
+		}
 		var params, argNames, ptypes []string
 		k := 0
 		variadic := false
@@ -118,6 +200,7 @@ func hookgenMain(args []string) {
 	s += extra.String()
 	// a "return" after a value return is unreachable but harmless; for functions with results drop it
 	s = strings.ReplaceAll(s, ")\n\t\treturn\n\t}\n\treturn verifOrig_", ")\n\t}\n\treturn verifOrig_")
+	s = strings.ReplaceAll(s, ")\n\t\treturn\n\t}\n\treturn vrecv.verifOrig_", ")\n\t}\n\treturn vrecv.verifOrig_")
 	formatted, err := format.Source([]byte(s))
 	if err != nil {
 		os.WriteFile(out, []byte(s), 0o644)
